@@ -21,7 +21,7 @@ CONFIG = {
     "mult_search": 3,
     "refuted": ["C16_list_walk_unguarded_refuted (snapshot code, repaired by fix 00dc9de)", "C16_swagger_snapshot_refuted (snapshot code, repaired by fix d8c3aa8)",
                 "C16_swagger_nil_response_snapshot_refuted (snapshot code, repaired by fix 7b835ba)", "C16_path_law_collision_refuted, C16_strcase_collision_refuted (class of names outside the law: fooId vs foo_id)"],
-    "partial": ["C16_full (the composed chain theorem) covers packages of services with any schema graph, every field type, methods with and without response body; outside it: list methods (their walk terminates: C16_list_walk_terminates, the composition with buildListRequest is not proved), topics (only the naming dispatch C16_service_suffixes), entities (walkSourceSchemas / StateEntity.ToJ5Proto not modelled)"],
+    "partial": ["C16_full (the composed chain theorem) covers packages of services with any schema graph, every field type, methods with and without response body; outside it: list methods (proved per method: C16_list_method_total says the client stage accepts a well-formed list method on every linked graph incl. recursive item objects; not folded into C16_full), topics (only the naming dispatch C16_service_suffixes), entities (walkSourceSchemas / StateEntity.ToJ5Proto not modelled)"],
 }
 
 MANIFEST = {
